@@ -21,6 +21,7 @@ import numpy as np
 
 from .. import objects as O
 from ..core import Run
+from ..corpus import consistent
 from ..digest import digest
 from ..par import pmap
 from ..shims import LoggingIterable, Tracer
@@ -179,7 +180,7 @@ def load_exec(task):
                         for data in gen:
                             n += 1
                             same = n <= len(task["singles"]) and digest(data) == task["singles"][n - 1]
-                            tr.log({"ev": "yield", "i": n, "same": bool(same)})
+                            tr.log({"ev": "yield", "i": n, "same": bool(same), "valid": not consistent(data)})
                             if task["discard"] == n:
                                 gen.close()
                                 out = "discarded"
@@ -194,15 +195,20 @@ def load_exec(task):
                 except Exception as exc:  # noqa: BLE001
                     out = classify_exc(exc)
                     msg = f"{type(exc).__name__}: {exc}"[:160]
+                    namesfile = path in str(exc)
+                    ln = getattr(exc, "lineno", None)
+                    lineno = [] if ln is None else [int(ln)]
                 else:
                     msg = ""
+                    namesfile, lineno = True, []
         events = list(tr.events)
         if not task["many"] and out == "return":
             # place the (unlogged) parse result before the close event, as the spec orders it
             ci = max(i for i, e in enumerate(events) if e["ev"] == "close")
-            events.insert(ci, {"ev": "yield", "i": 1, "same": bool(same)})
+            events.insert(ci, {"ev": "yield", "i": 1, "same": bool(same), "valid": not consistent(data)})
         warned = any(issubclass(w.category, LoadWarning) for w in wl)
-        end = {"ev": "end", "out": out, "yielded": n, "fd": tr.open_handles() > 0, "warned": warned}
+        end = {"ev": "end", "out": out, "yielded": n, "fd": tr.open_handles() > 0, "warned": warned,
+               "namesfile": bool(namesfile), "lineno": lineno, "nread": tr.nread}
         return [{"sc": sc}] + events + [end], {"fmt": fmt, "note": task["note"], "msg": msg, "task": task}
     finally:
         shutil.rmtree(tmp, ignore_errors=True)
